@@ -117,6 +117,42 @@ func checkIPv4(data) (r)
   loop 0
     invariant l == len(data) && fragments == split(data, ".") && len(fragments) == 4 && len(numbers) == 4
     invariant forall j Int {fragments[j]} :: 0 <= j && j < $i ==> canonByte(fragments[j]) && numbers[j] == atoi10(fragments[j])
+
+// AAAA record: textual IPv6 address (RFC 4291, hexadecimal groups only) of the global unicast space. In terms of the
+// colon-separated fragments F: every fragment is empty or a group of 1..4 hex digits; an interior empty fragment is
+// the "::" and there is at most one; a leading (trailing) empty fragment is only allowed as part of a leading
+// (trailing) "::"; without "::" there are exactly 8 groups, with it at most 8 fragments.
+// Global unicast as the contract documents it (IANA): 2000::/3 without 2002::/16 (6to4), 3ffe::/16 and above,
+// and inside 2001::/16 without 2001:0::/23 (first 0x200 second groups) and 2001:db8::/32 (documentation).
+pure hexdig(c Int) Bool = digit(c) || (c >= 97 && c <= 102) || (c >= 65 && c <= 70)
+pure group(f Bytes) Bool = len(f) >= 1 && len(f) <= 4 && (forall i Int {f[i]} :: 0 <= i && i < len(f) ==> hexdig(f[i]))
+pure gap(F L_NB, i Int) Bool = 1 <= i && i <= len(F) - 2 && len(F[i]) == 0
+pure wf6(F L_NB) Bool = 3 <= len(F) && len(F) <= 8
+     && (forall i Int {F[i]} :: 0 <= i && i < len(F) ==> len(F[i]) == 0 || group(F[i]))
+     && (forall i Int, j Int {F[i], F[j]} :: gap(F, i) && gap(F, j) ==> i == j)
+     && (len(F[0]) == 0 ==> len(F[1]) == 0)
+     && (len(F[len(F) - 1]) == 0 ==> len(F[len(F) - 2]) == 0)
+     && (len(F) < 8 ==> (exists i Int :: gap(F, i)))
+pure g0(F L_NB) Int = len(F[0]) == 0 ? 0 : hexu(F[0])
+pure g1(F L_NB) Int = len(F[1]) == 0 ? 0 : hexu(F[1])
+pure global6(a Int, b Int) Bool = 8192 <= a && a <= 16383 && a != 8194 && a != 16382 && (a == 8193 ==> b >= 512 && b != 3512)
+pure ipv6(data Bytes) Bool = 2 <= len(data) && len(data) <= 39 && wf6(split(data, ":")) && global6(g0(split(data, ":")), g1(split(data, ":")))
+
+func checkIPv6(data) (r)
+  pure
+  ensures [C18] r ==> ipv6(data)
+  loop 0
+    invariant 2 <= len(data) && len(data) <= 39 && l == len(fragments) && fragments == split(data, ":") && 3 <= l && l <= 8 && len(nums) == 8
+    invariant forall j Int {fragments[j]} :: 0 <= j && j < $i ==> len(fragments[j]) == 0 || group(fragments[j])
+    invariant forall j Int {fragments[j]} :: 0 <= j && j < $i && gap(fragments, j) ==> hasEmpty
+    invariant hasEmpty ==> (exists j Int :: j < $i && gap(fragments, j))
+    invariant forall j Int, k Int {fragments[j], fragments[k]} :: j < $i && k < $i && gap(fragments, j) && gap(fragments, k) ==> j == k
+    invariant $i > 0 && len(fragments[0]) == 0 ==> len(fragments[1]) == 0
+    invariant $i >= l && len(fragments[l - 1]) == 0 ==> len(fragments[l - 2]) == 0
+    invariant ($i > 0 ==> nums[0] == g0(fragments)) && ($i > 1 ==> nums[1] == g1(fragments))
+  loop 1
+    invariant i == entry(i) && l == entry(l) && endIndex == 9 - l + i && i <= j && len(nums) == 8 && hasEmpty
+    invariant (i > 0 ==> nums[0] == entry(nums)[0]) && (i > 1 ==> nums[1] == entry(nums)[1]) && (i == 1 && j > 1 ==> nums[1] == 0)
 @*/
 
 /*@
